@@ -1119,6 +1119,9 @@ impl Checker<'_> {
                 _ => None,
             })
             .unwrap_or(0);
+        // the server may have ended the session on its own (a request the session layer refuses)
+        // before the client closed it: the end cannot have been caused later than it was announced
+        let inv = inv.min(first_seq);
         rp.ended.insert(client, rp.groups.len());
         rp.groups.push(Group {
             what: GroupOp::SessionEnd(client),
@@ -1470,11 +1473,14 @@ impl Checker<'_> {
                 for q in qlo.max(p0)..=qhi.min(n) {
                     for router in [false, true] {
                         let exp = self.expected_stream(rp, &pattern, is_p, unique, live_only, p0, q, router);
-                        let m = if truncated_ok && unsub.is_none() {
+                        // Events travel through the subscription's forwarding task, answers do
+                        // not: an event that was queued before the unsubscribe may still be on its
+                        // way when the Ack arrives, and is lost if the connection goes away before
+                        // the forwarder gets to run. So for a session that ended, a missing tail
+                        // proves nothing (with or without an unsubscribe); for a session that is
+                        // still connected at the final quiescent point everything must be there.
+                        let m = if truncated_ok {
                             got.len() <= exp.len() && exp[..got.len()] == got[..]
-                        } else if unsub.is_some() {
-                            // events caused before the unsubscribe may be cut short by it only at the end
-                            exp == got
                         } else {
                             exp == got
                         };
